@@ -78,10 +78,23 @@ var c09simpleLeaves = []c09leaf{
 	{"str", `{"type":"string","enum":["a","b"]}`, `"a"`, `"c"`},
 }
 
+// leaves whose REJECTED value is the zero value of its kind (0, "", false): a walker that asks
+// "is there a value" with a zero test instead of a nil test never looks at them
+var c09zeroSchemaLeaves = []c09leaf{
+	{"int0", `{"type":"integer","minimum":1}`, `1`, `0`},
+	{"str0", `{"type":"string","minLength":1}`, `"a"`, `""`},
+	{"bool0", `{"type":"string"}`, `"x"`, `false`},
+}
+
+var c09zeroSimpleLeaves = []c09leaf{
+	{"int0", `{"type":"integer","minimum":1}`, `1`, `0`},
+	{"str0", `{"type":"string","enum":["a","b"]}`, `"a"`, `""`},
+}
+
 func c09leafByID(fam, id string) c09leaf {
-	l := c09schemaLeaves
+	l := append(append([]c09leaf{}, c09schemaLeaves...), c09zeroSchemaLeaves...)
 	if fam == "simple" {
-		l = c09simpleLeaves
+		l = append(append([]c09leaf{}, c09simpleLeaves...), c09zeroSimpleLeaves...)
 	}
 	for _, x := range l {
 		if x.ID == id {
@@ -666,6 +679,25 @@ func c09groups(quick bool) []c09Case {
 		add(c09Case{Fam: "schema", Root: root, Chain: []string{"properties"}, Slot: 0, Names: "type", Leaf: "kw", Cont: true})
 		add(c09Case{Fam: "schema", Root: root, Chain: []string{"properties", "properties"}, Slot: 0, Names: "type", Leaf: "kw", Cont: true})
 		add(c09Case{Fam: "schema", Root: root, Chain: []string{"properties", "properties"}, Slot: 1, Names: "type", Leaf: "kw", Cont: true})
+	}
+
+	// zero-valued rejected values: at every schema root, under every container, and on simple
+	// parameters / headers and their items
+	for _, lf := range c09zeroSchemaLeaves {
+		for _, root := range c09schemaRoots {
+			add(c09Case{Fam: "schema", Root: root, Chain: []string{}, Slot: 0, Names: "n", Leaf: lf.ID, Cont: true})
+		}
+		for ci, cont := range c09containers {
+			add(c09Case{Fam: "schema", Root: c09schemaRoots[ci%3], Chain: []string{cont}, Slot: 1, Names: "n", Leaf: lf.ID, Cont: true})
+		}
+	}
+	for _, lf := range c09zeroSimpleLeaves {
+		for _, root := range c09simpleRoots {
+			add(c09Case{Fam: "simple", Root: root, Chain: []string{}, Slot: 0, Names: "n", Leaf: lf.ID, Cont: true})
+		}
+		for _, root := range []string{"query", "response-header"} {
+			add(c09Case{Fam: "simple", Root: root, Chain: []string{"items"}, Slot: 1, Names: "n", Leaf: lf.ID, Cont: true})
+		}
 	}
 
 	// --- simple family
